@@ -6,11 +6,14 @@
   The elimination routine itself is not verified: every answer the driver returns carries the certificate
   `normalEqHolds … = true`, and `checker_sound` + `ls_optimal` turn an accepted certificate into global optimality.
 
-  Limit statement ("a datum whose weight *tends to* zero stops influencing the fit"): proved here as the exact statement
-  at weight zero (`zero_weight_is_deletion`, same column scaling); the limit itself (continuity of the solution in the
-  weights) is not proved — the harness checks a 1e-12 weight against deletion numerically.
+  Limit statement ("a datum whose weight *tends to* zero stops influencing the fit"): `zero_weight_is_deletion` is the exact
+  statement at weight zero (any ordered field, same column scaling) and `zero_weight_limit` is the limit itself over ℝ:
+  wherever the deleted problem is well posed (injective normal matrix), the fit is a continuous function of the weights
+  (Cramer/adjugate form of the inverse, Lemmas/LeastSquaresLimit.lean), so as `w → w₀` with `w₀ i₀ = 0` the parameters
+  converge to those of the data set without datum `i₀`.  The harness also checks a 1e-12 weight against deletion numerically.
 -/
 import VerdeModel.Lemmas.LinAlgBridge
+import VerdeModel.Lemmas.LeastSquaresLimit
 namespace Verde.C02
 open Verde Finset
 
@@ -55,12 +58,34 @@ theorem weights_scale_invariant {K : Type} [Field K] [LinearOrder K] [IsStrictOr
     LS.normalEq J (fun i => c * w i) d 0 s p ↔ LS.normalEq J w d 0 s p :=
   LS.weights_scale_invariant J w d c hc s p
 
-/-- A datum of weight zero does not influence the normal equations (partial form of the limit statement, see header). -/
-theorem zero_weight_is_deletion_partial {K : Type} [Field K] [LinearOrder K] [IsStrictOrderedRing K] {m n : ℕ}
+/-- A datum of weight zero does not influence the normal equations. -/
+theorem zero_weight_is_deletion {K : Type} [Field K] [LinearOrder K] [IsStrictOrderedRing K] {m n : ℕ}
     (J : Fin (m + 1) → Fin n → K) (w d : Fin (m + 1) → K) (α : K) (s p : Fin n → K) (i₀ : Fin (m + 1)) (h0 : w i₀ = 0) :
     LS.normalEq J w d α s p ↔
       LS.normalEq (fun i => J (i₀.succAbove i)) (fun i => w (i₀.succAbove i)) (fun i => d (i₀.succAbove i)) α s p :=
   LS.zero_weight_is_deletion J w d α s p i₀ h0
+
+/-- **Limit statement** (over ℝ).  Let `w₀` give weight zero to datum `i₀` and let the problem at `w₀` be well posed (injective
+    normal matrix — equivalently, by `zero_weight_is_deletion`, the problem WITHOUT datum `i₀`).  For any family `p w` of fitted
+    parameters (solutions of the normal equations for the weights `w`, for all `w` near `w₀`), `p w → p w₀` as `w → w₀` — in
+    particular as the single weight `w i₀ → 0` with the others fixed — and `p w₀` solves the normal equations of the data set
+    with datum `i₀` deleted: a datum whose weight tends to zero stops influencing the fit. -/
+theorem zero_weight_limit {m n : ℕ} (J : Fin (m + 1) → Fin n → ℝ) (d : Fin (m + 1) → ℝ) (α : ℝ) (s : Fin n → ℝ)
+    (w₀ : Fin (m + 1) → ℝ) (i₀ : Fin (m + 1)) (h0 : w₀ i₀ = 0) (hinj : LS.Injective' J w₀ α s)
+    (p : (Fin (m + 1) → ℝ) → Fin n → ℝ) (hp : ∀ᶠ w in nhds w₀, LS.normalEq J w d α s (p w)) :
+    Filter.Tendsto p (nhds w₀) (nhds (p w₀)) ∧
+      LS.normalEq (fun i => J (i₀.succAbove i)) (fun i => w₀ (i₀.succAbove i)) (fun i => d (i₀.succAbove i)) α s (p w₀) :=
+  ⟨LS.solution_tendsto J d α s w₀ hinj p hp,
+   (LS.zero_weight_is_deletion J w₀ d α s (p w₀) i₀ h0).mp hp.self_of_nhds⟩
+
+/-- The hypotheses of `zero_weight_limit` are satisfiable: one parameter, two data, the second with weight zero. -/
+example : LS.Injective' (fun (_ : Fin 2) (_ : Fin 1) => (1 : ℝ)) (fun i => if i = 0 then 1 else 0) 0 (fun _ => 1) := by
+  intro v hv
+  have := hv 0
+  simp at this
+  funext j
+  have hj : j = 0 := Subsingleton.elim _ _
+  subst hj; simpa using this
 
 /-- VectorSpline2D concatenates data and weights in the same (east, north) order: every datum keeps its own weight. -/
 theorem vector_weights_order (de dn we wn : List Rat) (h : de.length = we.length) :
